@@ -70,6 +70,7 @@ type world struct {
 	newHdrs   []int    // mixed mode: headers that the current InsertHeaderChain call has newly stored
 	lastHdrTd *big.Int // mixed mode: total difficulty of the head header before the current operation
 	noModel bool // history outside the model's scope (more than 128 blocks: trie garbage collection): judged directly only
+	collect func(kind, what, detail string) // enumeration mode: violations go here instead of the run
 	lagged  bool // a rewind on the pruned node fell back below its target (block head below header head) earlier in this history
 }
 
@@ -388,6 +389,10 @@ func (w *world) dump(res string) string {
 // ---- direct Spec judgement --------------------------------------------------------------------------------------------
 
 func (w *world) violate(kind, what, detail string) {
+	if w.collect != nil {
+		w.collect(kind, what, detail)
+		return
+	}
 	w.nViol++
 	if w.nViol > 3 { // one history: report the first few only
 		return
@@ -399,8 +404,88 @@ func (w *world) violate(kind, what, detail string) {
 	w.run.Violate(kind, w.prop+":"+w.mode+":"+ctx+what, w.hist, detail)
 }
 
+// judgeC03Mixed: C03 on ONE chain fed through both import paths. The head is defined as the statement says: the header
+// head for the number index (it is the one ahead in header-first use), the block head for what only full imports provide
+// (bodies, receipts, lookups).
+func (w *world) judgeC03Mixed(op Op) {
+	t, bc, db := w.t, w.bc, w.db
+	hh := bc.CurrentHeader()
+	hid, ok := t.ByHash[hh.Hash()]
+	if !ok {
+		w.violate("c03-head", "head-unknown", "head header is not a block of the tree")
+		return
+	}
+	headNum := hh.Number.Uint64()
+	// number index = ancestry of the header head, nothing above
+	for n := uint64(0); n <= headNum; n++ {
+		want := t.Ancestor(hid, n)
+		if got := core.GetCanonicalHash(db, n); got != t.Nodes[want].Block.Hash() {
+			shape := "entry-of-other-branch" // insert extended a block head whose own chain the index no longer describes
+			if got == (common.Hash{}) {
+				shape = "entry-missing" // reorg's clean-up loop deleted entries of the header chain above the new block head
+			}
+			w.violate("c03-canon-below", "canon-below-head-wrong:"+shape, fmt.Sprintf("after %s: header head %d (#%d): number %d maps to %s, want ancestor %d", op, hid, headNum, n, w.idOf(got), want))
+			break
+		}
+	}
+	for n := headNum + 1; n <= w.maxH+3; n++ {
+		if got := core.GetCanonicalHash(db, n); got != (common.Hash{}) {
+			w.violate("c03-canon-above", "canon-above-head", fmt.Sprintf("after %s: header head %d (#%d) but number %d still maps to block %s", op, hid, headNum, n, w.idOf(got)))
+			break
+		}
+	}
+	// the block head lies on the header chain
+	bh := bc.CurrentBlock()
+	bid := t.ByHash[bh.Hash()]
+	// Header-first use: a heavier header fork may run ahead on another branch than the blocks imported so far (the bodies
+	// follow later). That state is legitimate; the number index is then judged against the header head (above) and what
+	// only full imports provide against the chain of the block head (below). Only counted.
+	if bh.NumberU64() > headNum || t.Ancestor(hid, bh.NumberU64()) != bid {
+		if w.collect != nil {
+			w.collect("state", "block-head-not-on-header-chain", fmt.Sprintf("after %s: block head %d (#%d) off the chain of header head %d (#%d)", op, bid, bh.NumberU64(), hid, headNum))
+		} else {
+			w.run.Count("state:mixed-block-head-off-the-header-chain")
+		}
+	}
+	// header, body, receipts, td for the chain that ends at the block head; lookups exactly its transactions
+	type pos struct{ blk, idx int }
+	want := map[int]pos{}
+	for n := uint64(0); n <= bh.NumberU64(); n++ {
+		a := t.Ancestor(bid, n)
+		nd := t.Nodes[a]
+		ah := nd.Block.Hash()
+		if bc.GetHeader(ah, n) == nil || bc.GetBody(ah) == nil || bc.GetTd(ah, n) == nil {
+			w.violate("c03-retrieve", "header-or-body-missing", fmt.Sprintf("after %s: header/body/td of block %d (#%d) on the chain of the block head not retrievable", op, a, n))
+		}
+		if rs := bc.GetReceiptsByHash(ah); rs == nil || len(rs) != len(nd.Block.Transactions()) {
+			w.violate("c03-retrieve", "receipts-missing", fmt.Sprintf("after %s: receipts of block %d (#%d)", op, a, n))
+		}
+		for i, x := range nd.TxIDs {
+			want[x] = pos{a, i}
+		}
+	}
+	for i, tx := range t.Txs {
+		lh, ln, li := core.GetTxLookupEntry(db, tx.Hash())
+		p, canonical := want[i]
+		if !canonical {
+			if lh != (common.Hash{}) {
+				w.violate("c03-lookup-stale", "lookup-resolves-noncanonical-tx", fmt.Sprintf("after %s: tx %d is in no block of the chain of block head %d but its lookup resolves to block %s #%d idx %d", op, i, bid, w.idOf(lh), ln, li))
+			}
+			continue
+		}
+		nd := t.Nodes[p.blk]
+		if lh != nd.Block.Hash() || ln != nd.Block.NumberU64() || li != uint64(p.idx) {
+			w.violate("c03-lookup-missing", "lookup-wrong-or-missing", fmt.Sprintf("after %s: tx %d is tx %d of block %d on the chain of the block head but lookup gives block %s #%d idx %d", op, i, p.idx, p.blk, w.idOf(lh), ln, li))
+		}
+	}
+}
+
 // judgeC03 evaluates the statement of C03 on the real chain (at rest, after an operation).
 func (w *world) judgeC03(op Op) {
+	if w.mode == "mixed" {
+		w.judgeC03Mixed(op)
+		return
+	}
 	t, bc, db := w.t, w.bc, w.db
 	// The index head is the header head. For a chain fed by full imports it coincides with the block head; a rewind on a
 	// pruned node may legitimately leave the block head BELOW it (SetHead falls back to the last block whose state is
@@ -922,7 +1007,7 @@ func Main(prop string) {
 	}
 	// Mixed histories (C02): ONE chain instance fed through InsertChain and InsertHeaderChain (the two paths share the
 	// HeaderChain state: header store, td records, head header and the cached head-header hash used by WriteHeader).
-	if prop == "C02" {
+	{
 		nMixed := 24
 		if run.Thorough() {
 			nMixed *= 25
@@ -943,7 +1028,9 @@ func Main(prop string) {
 			run.Count("mode:mixed")
 			w.runHistory(ops)
 		}
-		concurrentWriters(run, rng.Fork(0xC0C0))
+		if prop == "C02" {
+			concurrentWriters(run, rng.Fork(0xC0C0))
+		}
 	}
 	// A chain longer than triesInMemory (128) on a pruning node with the default-sized cache: the states of the oldest
 	// blocks are garbage collected DURING import (no restart involved). Not covered by the Lean model; judged directly.
@@ -1122,5 +1209,104 @@ func concurrentWriters(run *hx.Run, rng *hx.Rng) {
 			}
 			bc.Stop()
 		}
+	}
+}
+
+// ---- exhaustive small-scope enumeration of mixed histories (evidence for findings / candidate fixes) ---------------------
+
+// EnumMixed runs EVERY history of up to maxLen operations over a fixed alphabet of batches (each as blocks or as bare
+// headers) on a fixed 6-block tree with two branches, on a fresh real chain each, judges the C03 clauses after the last
+// operation and prints, per clause, the number of failing histories and a shortest one.
+func EnumMixed(maxLen int) {
+	chainx.Quiet()
+	r := hx.NewRng(7)
+	t := chainx.NewTree(chainx.Opts{WithTxs: true, MinOffset: 100, MaxOffset: 101, ForkFree: true})
+	a1 := t.AddChild(r, 0).ID
+	a2 := t.AddChild(r, a1).ID
+	a3 := t.AddChild(r, a2).ID
+	t.Opts.MinOffset, t.Opts.MaxOffset = 130, 131
+	b1 := t.AddChild(r, 0).ID // lighter sibling of a1
+	t.Opts.MinOffset, t.Opts.MaxOffset = -9, -8
+	b2 := t.AddChild(r, b1).ID // still lighter than a2
+	b3 := t.AddChild(r, b2).ID // the b branch ends heavier than the a branch
+	fmt.Printf("tree: %s\n", renderTree(t))
+	for _, id := range []int{a1, a2, a3, b1, b2, b3} {
+		fmt.Printf("  td(%d)=%s", id, t.Td(id))
+	}
+	fmt.Println()
+	batches := [][]int{{a1}, {a1, a2}, {a1, a2, a3}, {a2, a3}, {a3}, {b1}, {b1, b2}, {b1, b2, b3}, {b2, b3}, {b3}}
+	var alphabet []Op
+	for _, b := range batches {
+		alphabet = append(alphabet, Op{Kind: 'I', IDs: b}, Op{Kind: 'H', IDs: b})
+	}
+	type stat struct {
+		n     int
+		first string
+		det   string
+	}
+	stats := map[string]*stat{}
+	total, failing := 0, 0
+	var rec func(prefix []Op)
+	runOne := func(ops []Op) {
+		total++
+		w := &world{prop: "C03", t: t, mode: "mixed", cache: &core.CacheConfig{Disabled: true}}
+		w.bc, w.db = t.NewChain(w.cache)
+		defer w.bc.Stop()
+		for _, n := range t.Nodes {
+			if n.Block.NumberU64() > w.maxH {
+				w.maxH = n.Block.NumberU64()
+			}
+		}
+		var names []string
+		for _, op := range ops {
+			names = append(names, op.String())
+			if res := w.exec(op); strings.HasPrefix(res, "panic") {
+				w.collect = nil
+				k := "panic"
+				if stats[k] == nil {
+					stats[k] = &stat{first: strings.Join(names, ";"), det: res}
+				}
+				stats[k].n++
+				failing++
+				return
+			}
+		}
+		seen := map[string]bool{}
+		w.collect = func(kind, what, detail string) {
+			k := kind + ":" + what
+			if seen[k] {
+				return
+			}
+			seen[k] = true
+			if stats[k] == nil {
+				stats[k] = &stat{first: strings.Join(names, ";"), det: detail}
+			}
+			stats[k].n++
+		}
+		w.judgeC03Mixed(ops[len(ops)-1])
+		if len(seen) > 1 || (len(seen) == 1 && !seen["state:block-head-not-on-header-chain"]) {
+			failing++
+		}
+	}
+	for L := 1; L <= maxLen; L++ { // by length, so that `first` is a shortest failing history
+		rec = func(prefix []Op) {
+			if len(prefix) == L {
+				runOne(prefix)
+				return
+			}
+			for _, op := range alphabet {
+				rec(append(append([]Op{}, prefix...), op))
+			}
+		}
+		rec(nil)
+	}
+	fmt.Printf("histories: %d (all sequences of 1..%d operations over %d batch operations), failing some clause: %d\n", total, maxLen, len(alphabet), failing)
+	keys := make([]string, 0, len(stats))
+	for k := range stats {
+		keys = append(keys, k)
+	}
+	sort.Strings(keys)
+	for _, k := range keys {
+		fmt.Printf("  %-50s %6d   shortest: %-24s %s\n", k, stats[k].n, stats[k].first, stats[k].det)
 	}
 }
